@@ -112,7 +112,7 @@ def _string_case(ch):
                 nums = list(re.finditer(r"(?<![A-Za-z0-9_.])[-+]?[0-9]+(?:\.[0-9]+)?(?![A-Za-z0-9_.])", t))
                 if nums:
                     m_ = nums[i % len(nums)]
-                    t = t[: m_.start()] + ch.pick(["0", "-1", "1", "2", "7", "0.5", "2.5", "-0.0", "1.0"]) + t[m_.end() :]
+                    t = t[: m_.start()] + ch.pick(["0", "-1", "1", "2", "7", "0.5", "2.5", "-0.0", "1.0", "9223372036854775808", "1.0e300"]) + t[m_.end() :]
             elif op == "crlf":
                 # Windows line ends: \r is not a Jaqal character (every or only the first line)
                 t = t.replace("\n", "\r\n") if ch.bool() else t.replace("\n", "\r\n", 1)
@@ -157,6 +157,9 @@ def _string_case(ch):
                 "let n -1\nregister q[n]\ng q[0]\n",
                 "let k 0.5\nregister q[2]\nmap a q[k:2]\ng a[0]\n",
                 "let s 0\nregister q[2]\nmap r q[0:2:s]\ng r[0]\n",
+                "let k 9223372036854775808\nregister b[5]\nmap n b[0:k]\ng n[1]\n",
+                "register q[100000000000000000000]\nmap w q[4:]\nmap v w[1:]\ng v[0]\n",
+                "let x 18446744073709551616\nregister s[x]\nmap r s[0:x]\ng r[1]\n",
                 "let s 0\nregister q[4]\nmap r q[::s]\nmap t r\nloop 2 { g t[1] }\n",
                 "let s -1\nregister q[4]\nmap r q[3:0:s]\nmacro m a { g a }\nm r[0]\n",
                 "register q[2]\nmacro a { b }\nmacro b { a }\na\n",
